@@ -494,8 +494,10 @@ func (m Mesh) ScanPrimitivesParallelWithPoolSize(size int, f func(i int, p Primi
 				panic(fmt.Errorf("unimplemented topology: %s", m.topology.String()))
 			}
 		}(workSize*i, jobSize)
+		verifYield("spawn:pool")
 	}
 
+	verifYield("pool:wait")
 	wg.Wait()
 
 	return m
@@ -560,8 +562,10 @@ func (m Mesh) ScanFloat3AttributeParallelWithPoolSize(atr string, size int, f fu
 				f(i, data[i])
 			}
 		}(workSize*i, jobSize)
+		verifYield("spawn:pool")
 	}
 
+	verifYield("pool:wait")
 	wg.Wait()
 
 	return m
@@ -615,8 +619,10 @@ func (m Mesh) ScanFloat2AttributeParallelWithPoolSize(atr string, size int, f fu
 				f(i, data[i])
 			}
 		}(workSize*i, jobSize)
+		verifYield("spawn:pool")
 	}
 
+	verifYield("pool:wait")
 	wg.Wait()
 
 	return m
@@ -670,8 +676,10 @@ func (m Mesh) ScanFloat1AttributeParallelWithPoolSize(atr string, size int, f fu
 				f(i, data[i])
 			}
 		}(workSize*i, jobSize)
+		verifYield("spawn:pool")
 	}
 
+	verifYield("pool:wait")
 	wg.Wait()
 
 	return m
@@ -728,8 +736,10 @@ func (m Mesh) ModifyFloat3AttributeParallelWithPoolSize(atr string, size int, f 
 				modified[i] = f(i, oldData[i])
 			}
 		}(workSize*i, jobSize)
+		verifYield("spawn:pool")
 	}
 
+	verifYield("pool:wait")
 	wg.Wait()
 
 	return m.SetFloat3Attribute(atr, modified)
@@ -786,8 +796,10 @@ func (m Mesh) ModifyFloat2AttributeParallelWithPoolSize(atr string, size int, f 
 				modified[i] = f(i, oldData[i])
 			}
 		}(workSize*i, jobSize)
+		verifYield("spawn:pool")
 	}
 
+	verifYield("pool:wait")
 	wg.Wait()
 
 	return m.SetFloat2Attribute(atr, modified)
@@ -843,8 +855,10 @@ func (m Mesh) ModifyFloat1AttributeParallelWithPoolSize(atr string, size int, f 
 				modified[i] = f(i, oldData[i])
 			}
 		}(workSize*i, jobSize)
+		verifYield("spawn:pool")
 	}
 
+	verifYield("pool:wait")
 	wg.Wait()
 
 	return m.SetFloat1Attribute(atr, modified)
